@@ -58,6 +58,14 @@ def main():
             env = dict(os.environ, VERIF_REPO=wt, VERIF_RUN_TAG="seed_%s" % a.sid)
             c = subprocess.run(["./check", prop, "--tier", a.tier], cwd=str(ROOT), capture_output=True, text=True, env=env)
             vio = [l for l in c.stdout.splitlines() if l.startswith("VIOLATION")]
+            ex = None
+            for l in vio[:1]:
+                m = re.search(r"replay=(\S+)", l)
+                if m and os.path.exists(m.group(1)):
+                    ex = json.load(open(m.group(1)))
+                    ex = {k: ex[k] for k in ("kind", "why", "input", "what") if k in ex}
+                    ex = json.loads(json.dumps(ex, default=str)[:6000]) if len(json.dumps(ex, default=str)) <= 6000 else {"truncated": json.dumps(ex, default=str)[:6000]}
+            meta.setdefault("replay_examples", {})[prop] = ex
             results[prop] = {"exit": c.returncode, "violation_lines": len(vio), "first": vio[:2],
                              "concrete": any("no-failing-input-found" not in l for l in vio), "wall_s": round(time.time() - t0, 1)}
             meta["ran"].append("VERIF_REPO=<changed tree> ./check %s --tier %s" % (prop, a.tier))
